@@ -71,6 +71,70 @@ pub fn c13(h: &mut H) {
             }
         }
     }
+    // caller-supplied base sets and key components that are NOT quadratic residues (Bases and CL03PublicKey::new
+    // are public; the property speaks of every key pair and base set): N - a is a non-residue modulo both
+    // safe primes, small integers are residues or not at random. Odd attributes, so that the signed element
+    // itself is a non-residue; several signatures per case because a slip in the exponent arithmetic shows
+    // for about every second e only.
+    {
+        let n = 3usize;
+        let neg = |x: &Integer| Integer::from(&k.n_mod - x);
+        let neg_bases: Vec<Integer> = k.bases[..n].iter().map(|a| neg(a)).collect();
+        let one_neg: Vec<Integer> = vec![k.bases[0].clone(), neg(&k.bases[1]), k.bases[2].clone()];
+        let small: Vec<Integer> = vec![Integer::from(3), Integer::from(5), Integer::from(7)];
+        let mut pk_negc = k.pk.clone();
+        pk_negc["c"] = iv(&neg(&field(&k.pk, "c")));
+        let mut pk_negb = k.pk.clone();
+        pk_negb["b"] = iv(&neg(&field(&k.pk, "b")));
+        let cases: Vec<(&str, Value, Vec<Integer>)> = vec![
+            ("neg_bases", k.pk.clone(), neg_bases),
+            ("one_neg_base", k.pk.clone(), one_neg),
+            ("small_bases", k.pk.clone(), small),
+            ("neg_c", pk_negc, k.bases[..n].to_vec()),
+            ("neg_b", pk_negb, k.bases[..n].to_vec()),
+        ];
+        let reps = if h.thorough { 12 } else { 5 };
+        for (nm, pk, bases) in cases {
+            for rep in 0..reps {
+                let mut msgs = attrs(h, n);
+                for m in msgs.iter_mut() {
+                    *m |= Integer::from(1);
+                }
+                h.stat(&format!("C13.nonresidue.{}", nm));
+                let (o, _) = call(h, "cl.signm", vec![pk.clone(), k.sk.clone(), ivs(&bases), ivs(&msgs)], vec![]);
+                let sid = h.last();
+                let sig = match o.ok().cloned() {
+                    Some(s) => s,
+                    None => {
+                        h.expect(false, "C13.sign", &format!("sign_multiattr panicked ({})", nm), &[sid]);
+                        continue;
+                    }
+                };
+                let v = verifym(h, &pk, &bases, &sig, &msgs);
+                h.expect(v.is_true(), "C13.verify_nonresidue", &format!("freshly issued signature over caller-supplied non-residues ({}) does not verify", nm), &[sid, h.last()]);
+                if rep == 0 {
+                    let (d, _) = call(h, "cl.disclose", vec![pk.clone(), ivs(&bases), ivs(&msgs), uv(&[1])], vec![]);
+                    let did = h.last();
+                    if let Some(dv) = d.ok() {
+                        let dm: Vec<Integer> = dv["a"].as_array().unwrap().iter().map(int_of).collect();
+                        let db: Vec<Integer> = dv["b"].as_array().unwrap().iter().map(int_of).collect();
+                        let v = verifym(h, &pk, &db, &sig, &dm);
+                        h.expect(v.is_true(), "C13.disclose_nonresidue", &format!("signature over non-residues ({}) does not verify after selective disclosure", nm), &[did, h.last()]);
+                    }
+                    let mut m2 = msgs.clone();
+                    m2[1] += 2;
+                    let v = verifym(h, &pk, &bases, &sig, &m2);
+                    h.expect(!v.is_true(), "C13.attr_plus_2_nonresidue", "signature over non-residues verifies for another attribute vector", &[sid, h.last()]);
+                }
+                // single-attribute interface on the same material
+                let (s1, _) = call(h, "cl.sign", vec![pk.clone(), k.sk.clone(), ivs(&bases[..1]), iv(&msgs[0])], vec![]);
+                if let Some(s1) = s1.ok().cloned() {
+                    let v = verify1(h, &pk, &bases[..1], &s1, &msgs[0]);
+                    h.expect(v.is_true(), "C13.verify_single_nonresidue", &format!("single-attribute signature over a caller-supplied non-residue ({}) does not verify", nm), &[h.last()]);
+                }
+            }
+        }
+    }
     let ns: Vec<usize> = if h.thorough { vec![1, 2, 3, 4, 5] } else { vec![1, 2, 3, 5] };
     let reps = if h.thorough { 4 } else { 1 };
     for &n in &ns {
